@@ -62,9 +62,9 @@ def build(chain):
     return e
 
 
-def real_run(engine, ctx, text, cap, tick_log):
+def real_run(engine, ctx, text, cap, tick_log, iterable=False):
     from yaql.language import exceptions as exc
-    src = c08.Counted(cap)
+    src = c08.CountedIterable(cap) if iterable else c08.Counted(cap)
     del tick_log[:]
     signal.signal(signal.SIGALRM, c08._alarm)
     signal.setitimer(signal.ITIMER_REAL, 5.0)
@@ -116,8 +116,11 @@ def run(rep, tier, seed, keep=False):
             chain = chain_builder(ids)
             ast = build(chain)
             text = g.render(ast)
-            for eng_, tag in ((engine, ''), (engine_lim, ' [limitIterators=500]')):
-                outcome, res, pulls = real_run(eng_, ctx, text, B + 60, tick_log)
+            # (the source handed over as `$` is an iterator; on the plain engine also an object that is merely iterable)
+            for eng_, tag, itb in ((engine, '', False), (engine_lim, ' [limitIterators=500]', False), (engine, ' [source: a re-iterable object]', True)):
+                if itb and note not in ('depth0', 'depth1'):
+                    continue
+                outcome, res, pulls = real_run(eng_, ctx, text, B + 60, tick_log, iterable=itb)
                 cnt = {}
                 for t in tick_log:
                     cnt[t] = cnt.get(t, 0) + 1
